@@ -51,7 +51,9 @@ func vEntryFor(tag string, addr common.Address, pool common.Address, mayDelegate
 	e := vEntry{addr: addr, present: vBool(tag + ".present")}
 	e.data.Validated = vBool(tag + ".validated")
 	e.data.Online = vBool(tag + ".online")
-	if vThorough() {
+	if vThorough() && (tag == "D" || tag == "Spool" || tag == "S1") {
+		// thorough tier: discrimination flags on the changed entries, the pool and one delegator (on every entry
+		// the product with two diff entries does not fit the path budget)
 		e.data.Discriminated = vBool(tag + ".discriminated")
 	}
 	if mayDelegate {
@@ -108,7 +110,7 @@ func vSortedAsc(l []common.Address) bool {
 }
 
 //verif:obligation C01.i tier=quick use=c10 bounds=same-as-C10.a covers=poolOf3,deleted,changed
-//verif:obligation C10.a tier=quick use=c10 bounds=3-delegator-candidates+1-pool,1-diff-entry(quick)|2(thorough),discriminated-flags-thorough-only covers=poolOf3,deleted,changed
+//verif:obligation C10.a tier=quick use=c10 bounds=3-delegator-candidates+1-pool,1-diff-entry,discriminated-flags-thorough-only(changed-entries,pool,one-delegator) covers=poolOf3,deleted,changed
 // Incremental maintenance vs. rebuild: v1 = load(S) followed by the real UpdateFromIdentityStateDiff(D)
 // must answer every public getter (sizes, per-address flags, pools, pool sizes, delegations, the
 // sub-identity a nonce selects, the sorted validator list, the pool member lists) exactly like
@@ -122,10 +124,9 @@ func H_C10a() {
 		S = append(S, vEntryFor("S"+string(rune('1'+i)), addrs[i], pool, true))
 	}
 	S = append(S, vEntryFor("Spool", pool, pool, false))
+	// one diff entry; the thorough tier adds the discrimination flags (two entries together with them exceed the
+	// path budget: batches of several changes are covered through C10.d and the seeded-change history only)
 	nd := 1
-	if vThorough() {
-		nd = 1 + vChoice("diffLen", 2)
-	}
 	diff := &state.IdentityStateDiff{}
 	after := append([]vEntry{}, S...)
 	for k := 0; k < nd; k++ {
